@@ -19,6 +19,10 @@ def entry(spec, slot):
 def build(spec, layer=0):
     from dissect.hypervisor.disk.c_hdd import c_hdd
 
+    if "bat_sparse" in spec and "bat" not in spec:
+        spec["bat"] = [None] * spec["nclusters"]
+        for k_, v_ in spec["bat_sparse"].items():
+            spec["bat"][int(k_)] = v_
     spc, n = spec["spc"], spec["nclusters"]
     cs = spc * 512
     f = SparseFile()
@@ -29,7 +33,7 @@ def build(spec, layer=0):
     sig = b"WithoutFreeSpace" if spec["ver"] == 1 else b"WithouFreSpacExt"
     fbo = spec["first"] if spec["ver"] == 1 else spec["first"] * spc
     raw = sig + struct.pack("<IIIII", 2, 16, 1, spc, n) + (struct.pack("<II", spec["size_sectors"], 0) if spec["ver"] == 1 else struct.pack("<Q", spec["size_sectors"])) \
-        + struct.pack("<IIIQ", 0, fbo, 0, 0)
+        + struct.pack("<IIIQ", 0x746F6E59 if spec.get("in_use") else 0, fbo, 0, 0)
     assert len(raw) == 64
     f.put(0, raw)
     bat = b"".join((0 if s is None else entry(spec, s)).to_bytes(4, "little") for s in spec["bat"])
@@ -37,13 +41,26 @@ def build(spec, layer=0):
     mult = 512 if spec["ver"] == 1 else cs
     for s in spec["bat"]:
         if s is not None:
-            f.put(entry(spec, s) * mult, bytes(pattern(layer, s, j) for j in range(cs)))
+            if cs <= 65536:
+                f.put(entry(spec, s) * mult, bytes(pattern(layer, s, j) for j in range(cs)))
+            else:  # large clusters: bytes are synthesised on demand
+                f.put_fn(entry(spec, s) * mult, cs, lambda st_, n_, s=s: bytes(pattern(layer, s, j) for j in range(st_, st_ + n_)))
     return f
+
+
+def big_specs():
+    """C13: version-2 image of 24 TiB with a 3 MiB BAT, marked "in use", clusters placed beyond 2^32 sectors and out of order; the BAT may
+    be loaded once (mapping metadata), not once per request"""
+    spc = 2048  # 1 MiB clusters
+    n = 786432
+    bat = {"0": 3000000, "5": 3, "700000": 2500001, str(n - 1): 7}  # cluster numbers above 2^32 / 2048: file offsets beyond 2^32 sectors
+    return [{"ver": 2, "spc": spc, "nclusters": n, "first": 1, "size_sectors": n * spc, "bat_sparse": bat, "in_use": True, "meta_bytes": 4 * n + 64,
+             "requests": [[0, 4096], [5 * spc * 512 + 100, 9000], [700000 * spc * 512 + spc * 512 - 300, 1000], [(n - 1) * spc * 512, 20000], [3 * spc * 512, 5000], [0, 512]]}]
 
 
 def guest_byte(spec, x, layer=0):
     cs = spec["spc"] * 512
-    s = spec["bat"][x // cs]
+    s = spec["bat"][x // cs] if "bat" in spec else spec["bat_sparse"].get(str(x // cs))
     if s is None:
         p = spec.get("parent")
         return guest_byte(p, x, layer + 1) if p else 0
